@@ -406,7 +406,8 @@ class Gen:
             idx = self.integer(depth - 1, size)
         if self.ground and idx[0] == "slice":
             idx = ("num", int(self.rng.integers(size)), size)  # Tensor[Slice] has no eager rule and would leave a lazy term
-        return ("bin", "getitem", (("offset", offset),), e, idx)
+        sugar = int(self.rng.integers(0, 4))   # the python-level indexing forms x[:, t], x[..., t, :], x[:, t, ...] desugar to the same op
+        return ("bin", "getitem", (("offset", offset),) + ((("sugar", sugar),) if sugar else ()), e, idx)
 
     def k_outred(self, depth, shape):
         extra = int(self.choice([2, 3]))
